@@ -7,7 +7,7 @@ from vf import q, qlist, clist, cbool, cnat, copt, frac, fr_json
 ID = 'C11'
 COQ_DIR = 'C11'
 COQ_HEADER = 'From V Require Import Common.Num C11.Model.\nOpen Scope Q_scope.'
-RULE = ('(a) 40 link scenarios in quick (5 per flag subset, all 8 subsets of link_with(flow, phase, TP)) between single-phase streams in different phases with ivol/imass reads, writes and get_flow on both sides in both orders before and after the link; (b) histories of 4-16 operations over a store of 2-3 streams (single-phase Stream and MultiStream, two property packages '
+RULE = ('(0) structured families that make state kept between calls matter: every unit string x every view through the views\' own get_data/set_data after the unit was converted legitimately elsewhere (24); a view written with another view as the value between streams / phases at different T, P, phase (24); F_vol / volumetric totals re-read after material moved between phases at unchanged overall composition (16); (a) 40 link scenarios in quick (5 per flag subset, all 8 subsets of link_with(flow, phase, TP)) between single-phase streams in different phases with ivol/imass reads, writes and get_flow on both sides in both orders before and after the link; (b) histories of 4-16 operations over a store of 2-3 streams (single-phase Stream and MultiStream, two property packages '
         'of stub chemicals whose molar volume is an injective dyadic function of (chemical, phase, T, P)): reads of the '
         'mol/mass/vol views and totals, get_flow/get_total_flow in 8 units + 3 wrong-dimension units, writes through every view '
         '(imol/imass/ivol item, set_flow, set_total_flow, F_mol/F_mass/F_vol setters), interleaved with T/P/phase/phases setters, '
@@ -25,7 +25,7 @@ ASSUMPTIONS = [
     'sparse storage invariant (stored keys = non-zero entries) is C09\'s; molar rows are modelled as dense vectors',
     'streams related by proxy() (one shared indexer object) are outside this model (C13/C14); each stream owns its indexer',
     'outside the modelled domain (C12/C13 own them; the model answers XDomain and the harness skips them): link_with / copy_like between streams of different property packages, flow-linking MultiStreams with different phase tuples, copy_like between MultiStreams with different phase sets, expanding the phases of a MultiStream whose data is linked, phases setters that drop or relabel a non-empty phase; a package reset that drops a chemical with non-zero flow; ms[phase] phase views',
-    'F_vol reads the mixture molar volume through the stream property memo; the memo is modelled as transparent here (its freshness for non-proxied streams is C14\'s subject) and the ideal mixture rule V = sum z_i V_i is used',
+    'F_vol reads the mixture molar volume through the stream property memo (_get_property): the memo of the one property these histories read (V) is part of the model (key = phase(s), T, P, normalised composition per phase; reset_cache call sites), for streams that are not proxies of each other; the ideal mixture rule V = sum z_i V_i is used',
 ]
 TRUSTED = ['model coq/C11/Model.v is hand-written from thermosteam/indexer.py (by_mass, by_volume, reset_chemicals, copy_like, '
            '_expand_phases, to_material_indexer, to_chemical_indexer), base/dictionary_view.py, _stream.py and '
@@ -738,13 +738,16 @@ def oracle(case):
 def finding_key(case, msg):
     import re
     m = re.search(r'op#\d+ (\w+)', msg)
-    what = 'alias' if 'cached views' in msg else ('vol' if 'vol[' in msg or 'vol view' in msg else ('mass' if 'mass' in msg else 'other'))
+    what = 'units' if 'dimension' in msg else 'viewcopy' if 'read back' in msg and 'view' in msg else 'totals' if 'F_vol' in msg or 'F_mass' in msg else 'alias' if 'cached views' in msg else ('vol' if 'vol[' in msg or 'vol view' in msg else ('mass' if 'mass' in msg else 'other'))
     return f'C11:{m.group(1) if m else "?"}:{what}'
 
 # minimised histories of the defects found in the unchanged tree (all repaired in /repo now: 071a958, efddd9f, 9fbe2c1,
 # a0ac858, 1c6e5d7, 7cf5a9b; they stay as regression cases); they run first
-CORPUS_NAMES = ['partial_link_different_phases', 'memo_phase', 'unlink_shared_cache', 'link_shared_cache', 'expand_phases_cache', 'copy_like_phase_indexer', 'reset_chemicals_container']
+CORPUS_NAMES = ['warm_unit_cache_wrong_dimension', 'view_written_with_view', 'memo_phase_redistribution', 'partial_link_different_phases', 'memo_phase', 'unlink_shared_cache', 'link_shared_cache', 'expand_phases_cache', 'copy_like_phase_indexer', 'reset_chemicals_container']
 CORPUS = [
+    {'streams': [{'kind': 'S', 'pkg': 0, 'phase': 'l', 'T': 320.0, 'P': 65536.0, 'flow': [2.0, 0.5, 1.0]}, {'kind': 'M', 'pkg': 0, 'phases': ['g', 'l'], 'T': 320.0, 'P': 65536.0, 'flow': [[1.0, 2.0, 0.0], [0.0, 0.5, 3.0]]}], 'ops': [['get_flow', 0, 3, 0, 'A_'], ['get_total', 1, 6], ['get_data', 0, 'mol', 3, 0, 'A_'], ['set_data', 1, 'mass', 6, 1, 'B_', 2.0], ['get_data', 1, 'vol', 1, 0, 'A_'], ['get_data', 0, 'mass', 3, 0, 'A_'], ['read', 1, 'mol']]},   # warm_unit_cache_wrong_dimension
+    {'streams': [{'kind': 'S', 'pkg': 0, 'phase': 'l', 'T': 320.0, 'P': 65536.0, 'flow': [2.0, 0.5, 1.0]}, {'kind': 'S', 'pkg': 0, 'phase': 'g', 'T': 384.0, 'P': 131072.0, 'flow': [1.0, 3.0, 0.0]}, {'kind': 'M', 'pkg': 0, 'phases': ['g', 'l'], 'T': 320.0, 'P': 65536.0, 'flow': [[1.0, 2.0, 0.0], [0.0, 0.5, 3.0]]}], 'ops': [['read', 1, 'vol'], ['assign', 0, 1, 'vol'], ['read', 0, 'vol'], ['F', 0, 'vol'], ['assign', 1, 0, 'mass'], ['copy_row', 2, 'vol', 0, 1], ['read', 2, 'vol'], ['F', 2, 'vol']]},   # view_written_with_view
+    {'streams': [{'kind': 'M', 'pkg': 0, 'phases': ['g', 'l'], 'T': 320.0, 'P': 65536.0, 'flow': [[3.0, 0.0, 0.0], [8.0, 0.0, 0.0]]}, {'kind': 'S', 'pkg': 0, 'phase': 'l', 'T': 320.0, 'P': 65536.0, 'flow': [1.0, 1.0, 1.0]}], 'ops': [['F', 0, 'vol'], ['set', 0, 'mol', 0, 'A_', 1.0], ['F', 0, 'vol'], ['get_total', 0, 6], ['set_total', 0, 6, 4096.0], ['get_total', 0, 6], ['read', 0, 'vol']]},   # memo_phase_redistribution
     {'streams': [{'kind': 'S', 'pkg': 0, 'phase': 'l', 'T': 320.0, 'P': 65536.0, 'flow': [2.0, 0.5, 1.0]}, {'kind': 'S', 'pkg': 0, 'phase': 'g', 'T': 320.0, 'P': 65536.0, 'flow': [1.0, 3.0, 0.0]}], 'ops': [['read', 0, 'vol'], ['link', 1, 0, True, False, True], ['read', 1, 'vol'], ['read', 0, 'vol'], ['set', 1, 'vol', 0, 'A_', 8.0], ['get_flow', 0, 5, 0, 'A_']]},   # partial_link_different_phases (flow+TP linked, phase not): views must not be shared
     {"streams": [{"kind": "S", "pkg": 0, "phase": "g", "T": 320.0, "P": 65536.0, "flow": [2.0, 0.5, 1.0]}, {"kind": "S", "pkg": 0, "phase": "s", "T": 320.0, "P": 65536.0, "flow": [2.0, 0.5, 1.0]}], "ops": [["read", 0, "vol"], ["phase", 0, "l"], ["read", 0, "vol"]]},   # memo_phase
     {"streams": [{"kind": "S", "pkg": 0, "phase": "l", "T": 320.0, "P": 65536.0, "flow": [2.0, 0.5, 1.0]}, {"kind": "S", "pkg": 0, "phase": "l", "T": 320.0, "P": 65536.0, "flow": [0.0, 0.0, 0.0]}], "ops": [["link", 1, 0, True, True, True], ["unlink", 0], ["read", 1, "mass"], ["set", 0, "mol", 0, "A_", 8.0], ["read", 0, "mass"]]},   # unlink_shared_cache
